@@ -17,6 +17,7 @@ import (
 	"github.com/tencent/goom/verifsim/model"
 	"github.com/tencent/goom/verifsim/rng"
 	"github.com/tencent/goom/verifsim/simcore"
+	"github.com/tencent/goom/verifsim/simenv"
 	"github.com/tencent/goom/verifsim/val"
 	"github.com/tencent/goom/verifsim/world"
 	"github.com/tencent/goom/verifsim/worlds/hist"
@@ -59,7 +60,7 @@ func Eligible() []int {
 	}
 	for _, t := range hist.Targets {
 		ft := t.Typ
-		if ft.NumOut() == 0 || t.Known != "" || t.Kind == "pkgfunc" {
+		if ft.NumOut() == 0 || t.Known != "" || t.Kind == "pkgfunc" || (t.Generic && simenv.RaceBuild) {
 			continue // pkgfunc targets resolve relative to the package that calls goom (world hist only)
 		}
 		if t.IsMethod && (t.SkipRecv == nil || !t.SkipRecv(0)) {
